@@ -415,3 +415,6 @@ def run(ctx):
     r1(ctx, fs)
     r2(ctx, fs)
     r3(ctx, fs)
+    # R4: what a relation literal means when it is FALSE (shared with C10.R2): the negation table of propagate(lit)
+    from .C10 import r2 as negation_table
+    negation_table(ctx, fs, rid='C12.R4')
